@@ -6,6 +6,9 @@
   python3 -m driver.seedtool detect <Cxx>-<slug> [tier] [checks...]
       -> applies the patch to /repo, runs the named checks (default: the property's own), reverts /repo,
          records the outcome in meta.json.
+  python3 -m driver.seedtool pdetect <tier> <jobs> <Cxx>-<slug>... [-- <check>...]
+      -> the same for several changes in parallel, each in a private copy of this directory (under /tmp/vdet,
+         removed afterwards) and a private patched worktree of /repo.
 """
 import json
 import os
@@ -107,10 +110,72 @@ def detectall(tier="quick"):
     print("SUMMARY not caught with a failing input:", missed)
 
 
+def _pdetect_one(arg):
+    """one seeded change against its checks in a private copy of this directory (build output included, so nothing
+    is rebuilt that the patch does not touch) and a private patched worktree of /repo"""
+    name, tier, checks = arg
+    d = os.path.join(SEEDED, name)
+    meta = json.load(open(os.path.join(d, "meta.json")))
+    checks = checks or [meta["property"]]
+    tag = "%s-%d" % (name, os.getpid())
+    vc = "/tmp/vdet/v-" + tag
+    wt = "/tmp/vdet/r-" + tag
+    os.makedirs("/tmp/vdet", exist_ok=True)
+    out = {}
+    try:
+        sh("rsync -a --exclude .git --exclude seeded --exclude evidence/replay --exclude build/det-tmp %s/ %s/" % (VERIF, vc))
+        rc, o = sh("git -C /repo worktree add --detach %s HEAD" % wt)
+        if rc != 0:
+            return name, {"error": "worktree: " + o[-300:]}
+        rc, o = sh("git apply %s" % os.path.join(d, "patch.diff"), cwd=wt)
+        if rc != 0:
+            return name, {"error": "patch does not apply: " + o[-300:]}
+        env = dict(ENV, VERIF_REPO=wt)
+        for c in checks:
+            t0 = time.time()
+            p = subprocess.run("./check %s %s" % (c, tier), shell=True, cwd=vc, env=env, stdout=subprocess.PIPE,
+                               stderr=subprocess.STDOUT, text=True, timeout=7200)
+            viol = [l[:400].replace(vc, VERIF) for l in p.stdout.split("\n") if l.startswith("VIOLATION")]
+            out["%s/%s" % (c, tier)] = {"rc": p.returncode, "violations": viol, "wall_s": round(time.time() - t0, 1)}
+    finally:
+        sh("git -C /repo worktree remove --force %s" % wt)
+        shutil.rmtree(vc, ignore_errors=True)
+    return name, out
+
+
+def pdetect(names, tier="quick", jobs=4, checks=None):
+    """several seeded changes at once; /verif itself and /repo are not touched"""
+    from concurrent.futures import ThreadPoolExecutor
+    with ThreadPoolExecutor(jobs) as ex:
+        for name, out in ex.map(_pdetect_one, [(n, tier, checks) for n in names]):
+            mp = os.path.join(SEEDED, name, "meta.json")
+            meta = json.load(open(mp))
+            if "error" in out:
+                print("SEED %s ERROR %s" % (name, out["error"]), flush=True)
+                continue
+            meta["detection"].update(out)
+            json.dump(meta, open(mp, "w"), indent=1)
+            for k, r in out.items():
+                viol = r["violations"]
+                kind = "MISSED" if r["rc"] != 1 or not viol else (
+                    "failing-input" if any("no-failing-input-found" not in v for v in viol) else "broken-tie-only")
+                print("SEED %s %s %s %ss\n   %s" % (name, k, kind, r["wall_s"], "\n   ".join(v[:230] for v in viol[:3])), flush=True)
+    sh("git -C /repo worktree prune")
+
+
 if __name__ == "__main__":
     a = sys.argv[1:]
     if a[0] == "detectall":
         detectall(a[1] if len(a) > 1 else "quick")
+        sys.exit(0)
+    if a[0] == "pdetect":
+        # pdetect <tier> <jobs> <name>... [-- <check>...]
+        rest = a[3:]
+        cks = None
+        if "--" in rest:
+            cks = rest[rest.index("--") + 1:]
+            rest = rest[:rest.index("--")]
+        pdetect(rest, a[1], int(a[2]), cks)
         sys.exit(0)
     if a[0] == "collect":
         collect(*a[1:6])
